@@ -25,7 +25,8 @@ def run(run: Run):
     quick = run.tier == "quick"
     rng = run.rng
     # objects constructed in different orders (each harness process constructs them in the given order)
-    objs = [(64, 32, 6, False), (64, 4, 6, True), (8, 2, 1, True), (1, 1, 2, True), (16, 8, 3, False), (2, 32, 4, False), (32, 1, 5, True), (4, 16, 6, False)]
+    objs = [(64, 32, 6, False), (64, 4, 6, True), (8, 2, 1, True), (1, 1, 2, True), (16, 8, 3, False), (2, 32, 4, True), (32, 1, 5, True), (4, 16, 6, True),
+            (1, 2, 1, True), (4, 8, 2, True), (8, 16, 1, True)]     # incl. parameter sets with more parties than bits (table rows per party vs per bit)
     order2 = list(reversed(objs))
     recs = run_harness(["gens"], [{"bits": b, "cap": c, "T": t, "table": tab} for (b, c, t, tab) in objs])
     recs2 = run_harness(["gens"], [{"bits": b, "cap": c, "T": t, "table": False} for (b, c, t, tab) in order2])
